@@ -36,6 +36,10 @@ IndexClassification::IndexClassification ( const Lattice::SiteMap &Sites ) : Ind
 
 void IndexClassification::prepare(bool order_spins)
 {
+    // prepare() may be called again (e.g. to switch the ordering): build the tables from scratch instead of growing them
+    IndexSize=0;
+    IndicesToInfo.clear();
+    InfoToIndices.clear();
     unsigned int MaxSpinSize=0;
     for (Lattice::SiteMap::const_iterator it1 = Sites.begin(); it1!=Sites.end();++it1) { // first run : determine IndexSpace size & calculate number of spins on each site.
         IndexSize+= (*(it1->second)).OrbitalSize*(*(it1->second)).SpinSize;
